@@ -95,12 +95,15 @@ impl SelectorSet {
     pub(super) fn has_backref(&self) -> bool {
         self.s.iter().any(Selector::has_backref)
     }
-    pub(super) fn resolve_ref(self, ctx: &CssSelectorSet) -> Self {
+    pub(super) fn resolve_ref(
+        self,
+        ctx: &CssSelectorSet,
+    ) -> Result<Self, Invalid> {
         let mut resolved = self
             .s
             .into_iter()
-            .map(|s| s.resolve_ref(ctx).into_iter())
-            .collect::<Vec<_>>();
+            .map(|s| s.resolve_ref(ctx).map(Vec::into_iter))
+            .collect::<Result<Vec<_>, _>>()?;
         // Now put the resolved items in the correct order.
         // We have [[a1, b1], [a2, b2]] but want [a1, a2, b1, b2]
         let mut s = Vec::new();
@@ -116,7 +119,7 @@ impl SelectorSet {
                 break;
             }
         }
-        Self { s }
+        Ok(Self { s })
     }
 }
 
